@@ -24,6 +24,7 @@ PROPS["C15"] = {
         Job("soyhtml", "H_textlex", "0..2,3..11", workers=16, maxfan=16, note="after commands holding comments"),
         Job("soyhtml", "H_textlex", "3..4,10", workers=16, maxfan=16, note="message text"),
         Job("soyhtml", "H_textlex", "0..4,12", workers=16, maxfan=16, note="message text with capital letters, after the message pass"),
+        Job("soyhtml", "H_textlex", "0..4,13", workers=16, maxfan=16, note="directly behind a closed block comment"),
         Job("soyhtml", "H_literal", "0..3", workers=8, maxfan=16),
         Job("parse", "H_rawtext", "5", tier="thorough", workers=16),
         Job("soyhtml", "H_textlex", "4,0..2", tier="thorough", workers=16, maxfan=16),
@@ -42,6 +43,7 @@ PROPS["C15"] = {
 PROPS["C03"] = {
     "jobs": [
         Job("soyhtml", "H_escape", "0..5", workers=16),
+        Job("soyhtml", "H_escapeDir", "0..5,0..1", workers=16, note="explicit |escapeHtml, values that look like escaped text"),
         Job("soyhtml", "H_decision", "0..3,0..3,0..8,0", workers=16),
         Job("soyhtml", "H_decision", "0..1,0..1,0..8,1..4", workers=16),
         Job("soyhtml", "H_decision", "0..3,0..3,0..3,4..8", workers=16, note="cross-namespace and cross-file calls"),
@@ -276,8 +278,8 @@ PROPS["C13"] = {
         Job("soyjs", "H_jsOrder", "0..4,-1..3,false", workers=8, timeout=300),
         Job("soyjs", "H_jsOrder", "0..4,-1..3,true", workers=8, timeout=300),
         Job(".", "H_bundleFirst", "0..1", workers=2, note="first compilation of a process, both file orders"),
-        Job(".", "H_bundle", "0..17,0", workers=8, timeout=400, per_map_site=r"^(ast|data|parse|parsepasses|soyhtml|soyjs|soymsg|template|bundle|globals)"),
-        Job(".", "H_bundle", "0..17,1..5", workers=8, timeout=400, note="file insertion orders"),
+        Job(".", "H_bundle", "0..18,0", workers=8, timeout=400, per_map_site=r"^(ast|data|parse|parsepasses|soyhtml|soyjs|soymsg|template|bundle|globals)"),
+        Job(".", "H_bundle", "0..18,1..5", workers=8, timeout=400, note="file insertion orders"),
     ],
     "bounds": "real soy.NewBundle().AddTemplateString(..).AddGlobalsMap(..).Compile() + Tofu rendering + soyjs.Write (ES5 and ES6) for 8 bundles, each compiled twice from the same Bundle object and a third time through CompileToTofu (valid with messages/globals/map literals/cross-file calls; rejected by the data-ref checker, the parser, the globals pass; two independent errors; duplicate template name; header params without soydoc); every map-range site reached in the soy packages is given an arbitrary iteration order, one site at a time (all permutations up to 5 keys; for larger maps an arbitrary key first and an arbitrary key last); all 6 insertion orders of up to 3 files; one bundle (a nameless expression printed in one file and selecting a plural in another) compiled as the first compilation of the process in both file orders against the absolute placeholder names",
     "outside": "two or more loops permuted simultaneously (order dependence that needs a particular combination); bundles outside the dictionary; file-system loading and the watcher",
@@ -311,7 +313,7 @@ PROPS["C17"] = {
 PROPS["C19"] = {
     "viol_filter": r"^(C19:|C12:|harness)",
     "jobs": [
-        Job("parse", "H_errpos", "0..11,0..2,4", workers=16),
+        Job("parse", "H_errpos", "0..16,0..2,4", workers=16),
         Job("soyhtml", "H_rendererr", "0..2,4,false", workers=8),
         Job("soyhtml", "H_rendererr", "0..2,4,true", workers=8, note="both files in one namespace"),
         Job("soyhtml", "H_writeerrpos", "3", workers=8),
@@ -322,7 +324,7 @@ PROPS["C19"] = {
         Job("parse", "H_parseCtx", "0..81,0..1,false", workers=16, maxsteps=300000),
         Job("parse", "H_exprCtx", "0..21,0..1,false", workers=16, maxsteps=300000),
         Job("parse", "H_parseCtx", "0..81,2,false", tier="thorough", workers=16, maxsteps=300000, note="k=2"),
-        Job("parse", "H_errpos", "0..11,0..2,7", tier="thorough", workers=16, note="7 lines"),
+        Job("parse", "H_errpos", "0..16,0..2,7", tier="thorough", workers=16, note="7 lines"),
     ],
     "bounds": "parse errors: 12 fault kinds injected on a symbolically chosen line of a 4-line (thorough 7) template body with LF, CRLF and blank-line separators: file name, exact line (point faults) or line within [construct start, end of input] (constructs left open), same numbers in the message text; on the C05 context harnesses (arbitrary symbolic bytes) every parse error carries the given file name and a line within 1..1+count(LF). Render errors: failing command on a symbolically chosen line at call depth 0..2 across two files (in different namespaces and in one shared namespace); render errors of 8 kinds (undefined value, directive / function given a wrong argument, user function panicking with an error value, arithmetic error, unknown directive, failing condition, non-list loop) one and two calls deep in another file; render errors raised inside a {msg} (from the source and through a translating catalogue) whose message also occurs, and renders, in a called template before and after; render errors caused by a write failure at a symbolically chosen write of a 3-line template; a failing expression inside a quoted attribute (call data=, param value=, call name= + data=) or a css command on a symbolically chosen line of the entry template",
     "outside": "column numbers are only required to agree between ErrFilePos and the message text; files longer than the bound",
@@ -370,6 +372,8 @@ PROPS["C14"] = {
         Job("soyjs", "H_jsLong", "0..5,5..6,0..5,0..3", tier="thorough", workers=16, maxsteps=3000000, note="longer text"),
         Job("soyjs", "H_jsLiteralIn", "0..15,0..2", workers=8),
         Job("soyjs", "H_jsSource", "0..3", workers=16),
+        Job("soyjs", "H_jsSourceX", "0..1,1", workers=4, note="through soyjs.Write with a two-byte character"),
+        Job("soyjs", "H_jsSourceX", "0..1,4", workers=4, note="through soyjs.Write with a character outside the BMP"),
         Job("soyjs", "H_jsStruct", "0..5,false", workers=4),
         Job("soyjs", "H_jsStruct", "0..5,true", workers=4),
         Job("soyjs", "H_jsLiteral", "0..5,3,0", tier="thorough", workers=16),
@@ -435,6 +439,8 @@ PROPS["C11"] = {
         Job("soymsg/pomsg", "H_plural", "1..3", workers=8, timeout=600),
         Job("soymsg/pomsg", "H_pluralCases", "0..4", workers=8, timeout=600),
         Job("soymsg/pomsg", "H_catalogue", "0..3", workers=8, timeout=600),
+        Job("soymsg/pomsg", "H_catalogueTr", "0..7,1", workers=8, timeout=600, note="partly translated catalogue, singular in use"),
+        Job("soymsg/pomsg", "H_catalogueTr", "0..7,5", workers=8, timeout=600, note="partly translated catalogue, other form in use"),
         Job("soymsg/pomsg", "H_sameID", "0..2", workers=8, timeout=600),
         Job("soymsg/pomsg", "H_distinctIDs", "1..37", workers=8, timeout=600),
     ],
